@@ -2190,4 +2190,36 @@ example :
     esR_pow2]
   decide +kernel
 
+/-- **exchange in IEEE double at lag `0`, for *all* time stamps that are doubles**: exchanging the
+series exchanges the two counts (hence the two doubles returned), whatever the subtractions inside
+the counting round to — IEEE rounding is odd (`rn53s_neg`) -/
+theorem es_float_exchange_lag0 (ex ey : List Rat) (tm : Option Rat)
+    (hdbl : ∀ t ∈ ex ++ ey, rn53s t = t) :
+    esR rn53s ey ex tm 0 = (esR rn53s ex ey tm 0).swap := by
+  rw [esR_exchange_lag0 rn53s rn53s_neg ex ey tm (fun t ht => by rw [add_zero]; exact hdbl t ht)]
+  cases esR rn53s ex ey tm 0 <;> rfl
+
+/-- **shift on the float path of lattice data**: time stamps, shift and lag on one binary lattice
+(`|k| ≤ 2⁴⁹` for stamps and shift) — the call in IEEE double returns the same counts before and
+after the shift -/
+theorem es_float_lattice_shift (z : Int) (c : Rat) (ts1 ts2 : List Rat) (bx by_ : List Bool)
+    (tm : Option Rat) (lag : Rat)
+    (h1 : ∀ t ∈ ts1, OnLat z (2 ^ 49) t) (h2 : ∀ t ∈ ts2, OnLat z (2 ^ 49) t)
+    (hc : OnLat z (2 ^ 49) c) (hl : OnLat z (2 ^ 50) lag) :
+    esFl (ts1.map (· + c)) bx (ts2.map (· + c)) by_ tm lag = esFl ts1 bx ts2 by_ tm lag := by
+  have m1 : ∀ t ∈ ts1.map (· + c), OnLat z (2 ^ 50) t := by
+    intro t ht
+    obtain ⟨u, hu, rfl⟩ := List.mem_map.1 ht
+    exact ((h1 u hu).add hc).mono (by norm_num)
+  have m2 : ∀ t ∈ ts2.map (· + c), OnLat z (2 ^ 50) t := by
+    intro t ht
+    obtain ⟨u, hu, rfl⟩ := List.mem_map.1 ht
+    exact ((h2 u hu).add hc).mono (by norm_num)
+  rw [es_float_lattice z _ _ bx by_ tm lag m1 m2 hl,
+    es_float_lattice z ts1 ts2 bx by_ tm lag (fun t ht => (h1 t ht).mono (by norm_num))
+      (fun t ht => (h2 t ht).mono (by norm_num)) hl]
+  unfold esSeries
+  rw [select_map, select_map]
+  exact es_shift c _ _ tm lag
+
 end Pyunicorn.Events
